@@ -42,6 +42,7 @@ pub fn generate(em: &mut Emitter, seed: u64, thorough: bool) {
     let n = if thorough { 1500 } else { 120 };
     let decorators = ["debug.stack.4", "emit.7", "trace.3", "debug.mem.1.2", "debug.stack"];
     let (mut hints, mut dbg, mut steps, mut clks) = (0u64, 0u64, 0u64, 0u64);
+    let mut zigzag = 0u64;
     let mut trace_rows_checked = 0u64;
     let mut early_overflow = 0u64;
     for i in 0..n {
@@ -212,6 +213,107 @@ pub fn generate(em: &mut Emitter, seed: u64, thorough: bool) {
                     "C14 stepping back to clock {} differs from stepping forward: `{}` stack={:?} :: back=`{}` fwd=`{}`",
                     t, src, st, &line[..line.len().min(200)], &fwd[t][..fwd[t].len().min(200)]));
             }
+            // every stepping sequence: a zig-zag (forward to t, back, forward again) reverses the
+            // direction at every clock in both directions, then a random walk; whatever the path,
+            // a state reported for clock t is the forward state of clock t
+            if fwd.len() >= 3 && fwd.len() <= 3000 {
+                let mk = || processor::execute_iter(&p, StackInputs::try_from_values({ let mut v = st.clone(); v.reverse(); v }).unwrap(), ReplayHost::new(r.tape.clone()));
+                let line_of = |s: &processor::VmState| format!("{} {} {} {:?} {:?}", u32::from(s.clk), u32::from(s.ctx), s.fmp.as_int(),
+                    s.stack.iter().map(|f| f.as_int()).collect::<Vec<_>>(),
+                    s.memory.iter().map(|(a, w)| (*a, w.iter().map(|f| f.as_int()).collect::<Vec<_>>())).collect::<Vec<_>>());
+                let n = fwd.len();
+                let mut z = mk();
+                let mut bad: Option<String> = None;
+                let mut check = |what: &str, want_clk: usize, got: Option<processor::VmState>, bad: &mut Option<String>| {
+                    if bad.is_some() { return; }
+                    match got {
+                        Some(s) => {
+                            let t = u32::from(s.clk) as usize;
+                            zigzag += 1;
+                            if t != want_clk {
+                                *bad = Some(format!("{} reported clock {} where clock {} was due", what, t, want_clk));
+                            } else if line_of(&s) != fwd[t] {
+                                *bad = Some(format!("{} reported for clock {} `{}` but the forward state is `{}`", what, t, &line_of(&s)[..line_of(&s).len().min(160)], &fwd[t][..fwd[t].len().min(160)]));
+                            }
+                        }
+                        None => *bad = Some(format!("{} reported nothing where clock {} was due", what, want_clk)),
+                    }
+                };
+                // the first state, then for every later clock: forward, back, forward
+                let first = z.next().and_then(|x| x.ok());
+                check("the first next()", 0, first, &mut bad);
+                for t in 1..n {
+                    let a = z.next().and_then(|x| x.ok());
+                    check("next()", t, a, &mut bad);
+                    let b = z.back();
+                    check("back() right after next()", t, b, &mut bad);
+                    let c = z.next().and_then(|x| x.ok());
+                    check("next() right after back()", t, c, &mut bad);
+                    if bad.is_some() { break; }
+                }
+                // random walk over the whole range, the two ends included: whatever clock a step
+                // reports (a reversal may repeat the last clock), it moves the right way by at most
+                // one and the state is the forward state of that clock
+                if bad.is_none() {
+                    let mut w = mk();
+                    let mut pos: i64 = -1; // clock of the last reported state
+                    let mut fwd_dir = true;
+                    for _ in 0..(4 * n).min(4000) {
+                        let at_start = pos <= 0;
+                        let at_end = pos as usize + 1 >= n && pos >= 0;
+                        let go_fwd = if at_start { true } else if at_end { false } else if rng.chance(3, 4) { fwd_dir } else { !fwd_dir };
+                        let got = if go_fwd { w.next().and_then(|x| x.ok()) } else { w.back() };
+                        match got {
+                            Some(s) => {
+                                let t = u32::from(s.clk) as i64;
+                                zigzag += 1;
+                                let moved_ok = if go_fwd { t == pos + 1 || (t == pos && !fwd_dir) } else { t == pos - 1 || (t == pos && fwd_dir) };
+                                if !moved_ok {
+                                    bad = Some(format!("random walk: {} after clock {} (previous step {}) reported clock {}", if go_fwd { "next()" } else { "back()" }, pos, if fwd_dir { "forward" } else { "backward" }, t));
+                                } else if (t as usize) < n && line_of(&s) != fwd[t as usize] {
+                                    bad = Some(format!("random walk: {} reported for clock {} `{}` but the forward state is `{}`", if go_fwd { "next()" } else { "back()" }, t, &line_of(&s)[..line_of(&s).len().min(160)], &fwd[t as usize][..fwd[t as usize].len().min(160)]));
+                                }
+                                pos = t;
+                            }
+                            None => {
+                                // stepping backwards ends below clock 1 (clock 0 is reported only on a reversal there)
+                                if !(pos <= 1 && !go_fwd) {
+                                    bad = Some(format!("random walk: {} after clock {} (previous step {}) reported nothing although clocks 0..{} exist", if go_fwd { "next()" } else { "back()" }, pos, if fwd_dir { "forward" } else { "backward" }, n - 1));
+                                }
+                            }
+                        }
+                        fwd_dir = go_fwd;
+                        if bad.is_some() { break; }
+                    }
+                }
+                // reversal at the very first clock
+                if bad.is_none() {
+                    let mut w = mk();
+                    let mut seen = vec![];
+                    for step in ["next", "back", "next", "next"] {
+                        let got = std::panic::catch_unwind(std::panic::AssertUnwindSafe(|| if step == "next" { w.next().and_then(|x| x.ok()) } else { w.back() }));
+                        match got {
+                            Ok(Some(s)) => {
+                                let t = u32::from(s.clk) as usize;
+                                zigzag += 1;
+                                if t < n && line_of(&s) != fwd[t] {
+                                    bad = Some(format!("reversal at clock 0: {}() reported a wrong state for clock {}", step, t));
+                                }
+                                seen.push(t as i64);
+                            }
+                            Ok(None) => seen.push(-1),
+                            Err(_) => { seen.push(-2); break; }
+                        }
+                    }
+                    // the iterator must still move forward afterwards
+                    if bad.is_none() && !(seen.len() == 4 && seen[2] >= 0 && seen[3] >= 1 && seen[3] > seen[2]) {
+                        bad = Some(format!("reversal at clock 0: next, back, next, next reported clocks {:?} (-1: nothing, -2: panic); the iterator does not move forward again", seen));
+                    }
+                }
+                if let Some(m) = bad {
+                    em.oracle_failures.push(format!("C14 step iterator depends on the stepping sequence: {} in `{}` stack={:?}", m, src, st));
+                }
+            }
             // final forward state's stack equals the reported outputs
             if let Some(last) = fwd.last() {
                 let outs = r.answer.split("stack=").nth(1).unwrap().split(' ').next().unwrap();
@@ -228,4 +330,5 @@ pub fn generate(em: &mut Emitter, seed: u64, thorough: bool) {
     em.stat("hint_variants", hints);
     em.stat("debug_variants", dbg);
     em.stat("backward_steps", steps);
+    em.stat("zigzag_and_random_walk_states", zigzag);
 }
